@@ -15,9 +15,9 @@ TYPES = [(r'^nano::program::solver_state_t$', 'struct nv_pstate'),
          # every matrix / vector / Eigen expression / decomposition is an opaque value identity
          (r'^nano::(vector_t|matrix_t)$|^nano::tensor_t<nano::tensor_vector_storage_t, double, [12]>$|^Eigen::.*>$', VAL)]
 # Eigen / tensor operators -> uninterpreted algebra over value identities
-CALLS = [(r'^operator\*\|[^|]*\|double$', 'nv_e_scale({0}, {1})'),
+CALLS = [(r'^operator\*\|[^|]*\|double(\||$)', 'nv_e_scale({0}, {1})'),
          (r'^operator\*\|', 'nv_e_mul({0}, {1})'),
-         (r'^operator/\|[^|]*\|double$', 'nv_e_sdiv({0}, {1})'),
+         (r'^operator/\|[^|]*\|double(\||$)', 'nv_e_sdiv({0}, {1})'),
          (r'^operator/\|', 'nv_e_div({0}, {1})'),
          (r'^operator\+\|', 'nv_e_add({0}, {1})'),
          (r'^operator-\|[^|]*\(\) const\|', 'nv_e_neg({0})'),
